@@ -26,7 +26,9 @@ from fractions import Fraction
 
 import numpy as np
 
-from harness.common import COQ, REPO, parse_coq_eval
+from pathlib import Path
+
+from harness.common import COQ, REPO, ROOT, parse_coq_eval
 from harness.coqterm import NotRepresentable, cstr
 
 D = datetime.date
@@ -194,6 +196,56 @@ def battery():
                           cell(2021, 0, {"reported_loss": np.array([1.0, 2.0, 4.0]), "earned_premium": np.array([2.0, 4.0, 8.0])})]),
                 {"battery": "absent-none"}, "battery/absent"))
     return out
+
+
+# ------------------------------------------------------------------------------ inputs produced by other operations
+DERIVATIONS = ("from_binary", "from_binary_compressed", "from_dict", "read_only_arrays", "to_incremental_to_cumulative")
+
+
+def derive_input(t, how):
+    """the 'same' triangle as another public operation hands it out (round 8, composition): arrays read back from a
+    .trib file are READ-ONLY views of the file buffer, JSON rebuilds every array, a basis round trip re-adds the values"""
+    import tempfile
+
+    from bermuda import Triangle
+
+    if how.startswith("from_binary"):
+        with tempfile.TemporaryDirectory(dir=str(ROOT / "build")) as d:
+            comp = how.endswith("compressed")
+            p = str(Path(d) / ("t.tribc" if comp else "t.trib"))
+            t.to_binary(p, compress=comp)
+            return Triangle.from_binary(p)
+    if how == "from_dict":
+        return Triangle.from_dict(t.to_dict())
+    if how == "read_only_arrays":
+        cells = []
+        for c in t.cells:
+            vals = {}
+            for k, v in c.values.items():
+                if isinstance(v, np.ndarray):
+                    v = v.copy()
+                    v.setflags(write=False)
+                vals[k] = v
+            cells.append(c.replace(values=vals))
+        return Triangle(cells)
+    if how == "to_incremental_to_cumulative":
+        return t.to_incremental().to_cumulative() if not t.is_incremental else t.to_cumulative().to_incremental()
+    raise ValueError(how)
+
+
+def fresh_oracle(t):
+    """oracle on a triangle whose ==-equal twin may have been plotted before: build_plot_data memoises on equality"""
+    import bermuda.plot as bp
+
+    f = bp.build_plot_data
+    for _ in range(4):                       # @freezeargs(@cache(f)): the cache object sits one __wrapped__ below
+        if hasattr(f, "cache_clear"):
+            f.cache_clear()
+        f = getattr(f, "__wrapped__", None)
+        if f is None:
+            break
+    return oracle(t)
+
 
 
 # ------------------------------------------------------------------------------ implementation
@@ -1084,9 +1136,36 @@ def run(ctx):
         ctx.count(evaluations=len(t), traces=1)
         if r is not None:
             fails.append((t, desc, r))
+    # 3b. the same triangles as OTHER public operations hand them out (derived inputs): the records must be as faithful
+    nd = 0
+    for j, (t, info, desc) in enumerate(cases):
+        if len(t) == 0 or (j % 3 and not any(isinstance(v, np.ndarray) and v.ndim for c in t.cells for v in c.values.values())):
+            continue
+        how = DERIVATIONS[j % len(DERIVATIONS)]
+        try:
+            with warnings.catch_warnings():
+                warnings.simplefilter("ignore")
+                td = derive_input(t, how)
+        except Exception:  # noqa: BLE001  -- the derivation itself is the business of C04/C05/C07
+            ctx.hist("derived-input:refused:" + how)
+            continue
+        if canon_tri(td, ordered=True) != canon_tri(t, ordered=True) and how != "to_incremental_to_cumulative":
+            ctx.hist("derived-input:not-identical(skipped):" + how)
+            continue
+        nd += 1
+        ctx.hist("derived-input:" + how)
+        r = fresh_oracle(td)
+        ctx.count(evaluations=len(td), traces=1)
+        if r is not None and fresh_oracle(t) is None:
+            fails.append((td, f"{desc} via {how}", {**r, "derived_by": how}))
+            ctx.violation("impl-violation", f"plot data not faithful on the output of {how} ({desc}), faithful on the same cells built "
+                          f"directly: {r}", {"triangle": tri_spec(t), "derived_by": how, "failure": r}, found_input=True)
+            if len(fails) > 6:
+                break
+    ctx.log(f"derived inputs: {nd} triangles")
     ctx.sample({"case": cases[10][2], "triangle": tri_spec(cases[10][0])[:2]})
     ctx.log(f"direct oracle: {len(cases)} triangles, {len(fails)} failures")
-    for t, desc, r in fails[:5]:
+    for t, desc, r in [f for f in fails if "derived_by" not in f[2]][:5]:
         ctx.violation("impl-violation", f"plot data not faithful ({desc}): {r}",
                       {"triangle": shrink(t), "failure": r}, found_input=True)
     # 4. correspondence in coqc
@@ -1193,10 +1272,13 @@ def replay(ctx, data):
     with warnings.catch_warnings():
         warnings.simplefilter("ignore")
         t = spec_tri(spec)
+        if data.get("derived_by"):
+            t = derive_input(t, data["derived_by"])
+            print("input derived by", data["derived_by"])
     print(f"triangle with {len(t)} cell(s), {len(t.slices)} slice(s)")
     for c in t.cells[:6]:
         print("  ", repr(c)[:300])
-    r = oracle(t)
+    r = fresh_oracle(t)
     if r is None:
         print("build_plot_data: one record per cell in order, metrics and labelled statistics as stated: OK")
         return 0
